@@ -601,11 +601,8 @@ namespace link_layer {
         {
             acknowledge( header & nesn_flag );
 
-            // resent PDU?
-            if ( static_cast< bool >( header & sn_flag ) == next_expected_sequence_number_ )
-            {
-                next_expected_sequence_number_ = !next_expected_sequence_number_;
-            }
+            // The PDU itself is not acknowledged: if it is a resent PDU, it was acknowledged when it was received
+            // the first time; if it is a new PDU, it failed its integrity check and has to be resent by the central.
         }
 
         return next_transmit();
